@@ -65,29 +65,29 @@ class Ranker:
                     prot = view.protection(s)
                     if prot is not None and mem_total > 0:
                         ratio = F(swap_total, mem_total)
-                        out[s] = max(F(0), F(u) - ratio * math.floor(prot))
-                    elif prot is not None:
-                        out[s] = F(u)
+                        # the ratio is kept in float32 and protection goes through a double for nested cgroups
+                        out[s] = Tol(max(F(0), F(u) - ratio * math.floor(prot)), ratio * math.floor(prot) * F(1, 10**6) + 2)
                     else:
-                        out[s] = F(u)
+                        out[s] = Tol(u, 0)
                 else:
-                    out[s] = F(u)
+                    out[s] = Tol(u, 0)  # plain swap usage: integers, compared exactly
             return out
         if self.plugin == "kill_by_pressure":
             res = a.get("resource", "memory")
             for s in sibs:
                 p = view.psi(s, res, "full")
-                out[s] = (F(p[0]) + F(p[1])) / 2 if p else F(0)
+                out[s] = Tol((F(p[0]) + F(p[1])) / 2 if p else 0, F(1, 1000))  # float32 arithmetic on 2-decimal inputs
             return out
         if self.plugin == "kill_by_io_cost":
             for s in sibs:
-                out[s] = temporal.get(s, {}).get("io_cost_rate") or F(0)
+                cum = view.io_cost_cum(s)
+                out[s] = Tol(temporal.get(s, {}).get("io_cost_rate") or 0, (abs(cum) if cum is not None else 0) * F(1, 10**9) + F(1, 10**6))
             return out
         if self.plugin == "kill_by_pg_scan":
             for s in sibs:
                 r = temporal.get(s, {}).get("pg_scan_rate")
                 if r is not None and r > 0:
-                    out[s] = F(r)
+                    out[s] = Tol(r, 0)  # integer page counts
             return out
         if self.plugin == "kill_by_memory_size_or_growth":
             size_thr = int(a.get("size_threshold", "50"))
@@ -112,29 +112,42 @@ class Ranker:
                 if avg is not None and math.floor(avg) != 0 and growth != mgr and abs(growth - mgr) <= mgr / 10**5:
                     self.amb.add(s)  # exactly on the configured ratio is judged: ">= min_growth_ratio" includes equality
                 grow_ok = growth >= mgr and eff[s] >= gthr
-                out[s] = (eff[s] if size_ok else F(0), growth if grow_ok else F(0), eff[s])
+                # effective usage: integers, except that nested protection goes through a double (relative 1e-12);
+                # growth ratio is a float32
+                prot = view.protection(s)
+                etol = (abs(prot) * F(1, 10**11) + 2) if prot else F(0)
+                e_ = Tol(eff[s], etol)
+                out[s] = (e_ if size_ok else Tol(0), Tol(growth, growth * F(1, 10**6)) if grow_ok else Tol(0), e_)
             return out
         raise ValueError(self.plugin)
 
 
-def _cmp_scalar(a, b, eps):
-    d = abs(a - b)
-    if d <= eps * max(abs(a), abs(b)) + F(1, 1000):
-        return 0
-    return 1 if a > b else -1
+class Tol:
+    """a key component with an absolute tolerance: differences within it are undecidable from outside
+    (the implementation rounds there), exactly equal values fall through to the next component"""
+
+    def __init__(self, v, tol=0):
+        self.v = F(v)
+        self.tol = F(tol)
+
+    def __float__(self):
+        return float(self.v)
 
 
-def cmp_keys(a, b, eps=1e-6):
-    """lexicographic comparison with a relative tie band per component (the implementation keeps some
-    components in float32)"""
+def _as_tol(x):
+    return x if isinstance(x, Tol) else Tol(x, 0)
+
+
+def cmp_keys(a, b, eps=None):
     if not isinstance(a, tuple):
         a, b = (a,), (b,)
     for x, y in zip(a, b):
-        if x == y:
+        x, y = _as_tol(x), _as_tol(y)
+        if x.v == y.v:
             continue
-        # close but not identical: the implementation may or may not see a difference at its
-        # float precision, so either order is acceptable -> report a tie for the whole key
-        return _cmp_scalar(x, y, eps)
+        if abs(x.v - y.v) <= max(x.tol, y.tol):
+            return 0  # close but not identical: either order is acceptable -> tie for the whole key
+        return 1 if x.v > y.v else -1
     return 0
 
 
@@ -145,7 +158,7 @@ def tie_groups(keys, prefs, eps=1e-6):
     def cmp(i, j):
         if prefs[i] != prefs[j]:
             return 1 if prefs[i] > prefs[j] else -1
-        return cmp_keys(keys[i], keys[j], eps)
+        return cmp_keys(keys[i], keys[j])
 
     items = sorted(keys, key=functools.cmp_to_key(cmp), reverse=True)
     groups = []
